@@ -60,14 +60,12 @@ public:
     writeCDATAChar(
             const XalanDOMChar  chars[],
             size_type           start,
-            size_type           /*length*/,
+            size_type           length,
             bool&               /* outsideCDATA */)
     {
         assert( chars != 0 );
 
-        write(chars[start]);
-
-        return start;
+        return write(chars, start, length);
     }
 
     /**
@@ -167,10 +165,33 @@ public:
     write(
             const value_type    chars[],
             size_type           start,
-            size_type           /*length*/)
+            size_type           length)
     {
-        write(chars[start]);
-        
+        const XalanDOMChar  ch = chars[start];
+
+        if (isUTF16HighSurrogate(ch) == false)
+        {
+            write(ch);
+        }
+        else if (start + 1 >= length)
+        {
+            throwInvalidUTF16SurrogateException(
+                ch,
+                0,
+                getMemoryManager());
+        }
+        else
+        {
+            // This throws if the second code unit is not a low surrogate.
+            decodeUTF16SurrogatePair(
+                ch,
+                chars[start + 1],
+                getMemoryManager());
+
+            write(ch);
+            write(chars[++start]);
+        }
+
         return start;
     }
 
